@@ -366,6 +366,20 @@ type gen struct {
 	uniform   bool  // uniform instead of Zipf key choice
 	simple    bool  // counter and value events only
 	clusterB  int64 // countMode 3: every count lies in [clusterB, clusterB+1)
+	// countMode 4: near-ties around a heavy base: base + k·step, |k| ≤ 3, with steps taken from the grids on which a
+	// comparator could plausibly round (1/16 = the finest grid of the exact domain, 1, half a float32 ulp, a float32 ulp)
+	heavyBase  int64   // in 1/16 units
+	heavySteps []int64 // in 1/16 units
+	countersOnly bool
+}
+
+// ulp32 is the spacing of float32 at x (x a power of two ≥ 2^24 here), an integer
+func ulp32(x int64) int64 {
+	e := 0
+	for v := x; v > 1; v >>= 1 {
+		e++
+	}
+	return int64(1) << uint(e-23)
 }
 
 func (g *gen) key() tag {
@@ -404,6 +418,8 @@ func (g *gen) count() int64 {
 		c = int64(g.r.Range(1, 64))
 	case 3:
 		return g.clusterB*unit16 + int64(g.r.Intn(unit16)) // several values less than 1 apart
+	case 4:
+		return g.heavyBase + int64(g.r.Range(-3, 3))*g.heavySteps[g.r.Intn(len(g.heavySteps))]
 	default:
 		c = int64(1) << uint(g.r.Intn(13))
 	}
@@ -446,7 +462,7 @@ func (g *gen) host() tag {
 
 func (g *gen) event(shard bool) event {
 	if g.simple {
-		if g.r.Bool() {
+		if g.countersOnly || g.r.Bool() {
 			return event{kind: "c", c: g.count()}
 		}
 		return event{kind: "v", v: g.value(), c: g.count()}
@@ -513,7 +529,7 @@ func runCase(h *verifx.H, i int, r *verifx.Rng) {
 	// capacity policy
 	capFixed, capVary := 0, false
 	nops := r.Range(5, 120)
-	switch r.Pick(32, 24, 4, 14, 10, 16) {
+	switch r.Pick(30, 22, 4, 13, 9, 12, 10) {
 	case 0:
 		capFixed = r.Range(1, 6)
 		g.nkeys = capFixed + r.Range(0, 3*capFixed+3)
@@ -537,6 +553,20 @@ func runCase(h *verifx.H, i int, r *verifx.Rng) {
 		capFixed = r.Range(30, 60)
 		g.nkeys = r.Range(1, 25)
 		h.Stat("cap.roomy", 1)
+	case 6:
+		// many distinct very heavy top values that are near-ties on coarser grids (adjacent integers ≥ 2^24 collapse in
+		// float32, fractions collapse in int), no eviction, finish cuts through the cluster.  Counters only and bases
+		// ≤ 2^40 so that every sum stays exact in float64 (the bases beyond that are in -mode=heavy, oracle only).
+		nops = r.Range(4, 50)
+		capFixed = 1000
+		g.nkeys = 3 * nops
+		g.uniform, g.simple, g.countersOnly, g.degen = true, true, true, false
+		g.countMode = 4
+		b := []int64{1 << 24, 1 << 24, 1 << 25, 1 << 31, 1 << 40}[r.Intn(5)]
+		g.heavyBase = b * unit16
+		all := []int64{1, unit16, ulp32(b) * unit16 / 2, ulp32(b) * unit16}
+		g.heavySteps = [][]int64{all, {1}, {unit16}, {ulp32(b) * unit16 / 2, unit16}}[r.Intn(4)]
+		h.Stat("cap.roomy-heavy-cluster", 1)
 	default:
 		// many distinct top values whose counts are less than 1 apart, no eviction, finish cuts through the cluster
 		nops = r.Range(6, 60)
@@ -574,7 +604,7 @@ func runCase(h *verifx.H, i int, r *verifx.Rng) {
 		sr := verifx.NewRng(base*3 + uint64(op)*0xBF58476D1CE4E5B9 + 17)
 		g.r = r
 		if op == midFinish {
-			doFinish(h, sr, rw, tot, g.countMode == 3)
+			doFinish(h, sr, rw, tot, g.countMode >= 3)
 		}
 		if r.Chance(1, 30) {
 			doReorder(h, sr, rw)
@@ -721,7 +751,7 @@ func runCase(h *verifx.H, i int, r *verifx.Rng) {
 		tot.add(e)
 		checkTotals(h, fmt.Sprintf("after write %d", op), tot, postTop, postTail)
 	}
-	doFinish(h, verifx.NewRng(base*3+999983), rw, tot, g.countMode == 3)
+	doFinish(h, verifx.NewRng(base*3+999983), rw, tot, g.countMode >= 3)
 	if evictedAny {
 		h.NonTrivial("resample")
 	}
@@ -872,7 +902,68 @@ func doFinish(h *verifx.H, r *verifx.Rng, rw *row, tot *totals, cluster bool) {
 			h.Stat("finish.cut-inside-one-unit", 1)
 			h.NonTrivial("fraccut")
 		}
+		if len(kept) > 0 && minKept != maxFolded && float32(minKept) == float32(maxFolded) {
+			h.Stat("finish.cut-inside-one-float32-ulp", 1)
+			h.NonTrivial("f32cut")
+		}
 	}
+}
+
+// runHeavy: oracle-only cases (no model replay: sums of such weights are not exact in float64, so only the
+// order-related part of the property is evaluated).  Distinct top values whose float64 weights are near-ties around
+// bases where coarser number formats collapse — 2^24 and 2^31 (float32 integers), 2^53 and 2^62 (float64 integers),
+// 1e30 and 3e38 (close to MaxFloat32): k float64 ulps from the base, float32 neighbours of the base moved by ±1 float64
+// ulp, and relative offsets k·2^-30 (below the float32 epsilon).  FinishStringTop then cuts through the cluster.
+func runHeavy(h *verifx.H, i int, r *verifx.Rng) {
+	base := []float64{1 << 24, 1 << 31, 1 << 53, 1 << 62, 1e30, 3e38, 1 << 24, 3}[r.Intn(8)]
+	n := r.Range(3, 40)
+	rw := &row{item: &data_model.MultiItem{}, rng: rand.New(r.U64())}
+	kinds := r.Range(1, 7) // bit set of the three near-tie families
+	for j := 0; j < n; j++ {
+		var w float64
+		for {
+			switch r.Intn(3) {
+			case 0:
+				if kinds&1 == 0 {
+					continue
+				}
+				w = base
+				for k, dir := r.Range(0, 3), []float64{math.Inf(1), math.Inf(-1)}[r.Intn(2)]; k > 0; k-- {
+					w = math.Nextafter(w, dir)
+				}
+			case 1:
+				if kinds&2 == 0 {
+					continue
+				}
+				f := float32(base)
+				for k, dir := r.Range(0, 2), []float32{float32(math.Inf(1)), float32(math.Inf(-1))}[r.Intn(2)]; k > 0; k-- {
+					f = math.Nextafter32(f, dir)
+				}
+				w = float64(f)
+				switch r.Intn(3) {
+				case 0:
+					w = math.Nextafter(w, math.Inf(1))
+				case 1:
+					w = math.Nextafter(w, math.Inf(-1))
+				}
+			default:
+				if kinds&4 == 0 {
+					continue
+				}
+				w = base * (1 + float64(r.Range(-8, 8))/(1<<30))
+			}
+			break
+		}
+		k := tag{S: "h" + strconv.Itoa(j)}
+		if r.Bool() {
+			k = tag{I: int32(j + 1)}
+		}
+		h.Op("hw %s %016x", keyStr(k), math.Float64bits(w))
+		rw.item.MapStringTop(rw.rng, 1000, k, w).AddCounterHost(rw.rng, w, tag{})
+	}
+	h.Stat("heavy.cases", 1)
+	h.Stat(fmt.Sprintf("heavy.base.%g", base), 1)
+	doFinish(h, r, rw, &totals{off: true}, true)
 }
 
 func main() {
@@ -883,6 +974,11 @@ func main() {
 		fmt.Printf("/-- data_model.DefaultStringTopCapacity as the Go compiler evaluates it -/\n")
 		fmt.Printf("def defaultStringTopCapacity : Nat := %d\n", data_model.VerifDefaultStringTopCapacity())
 		fmt.Printf("end SH.Gen.C07\n")
+		return
+	}
+	if h.Mode == "heavy" {
+		h.Cases(func(i int, r *verifx.Rng) { runHeavy(h, i, r) })
+		h.Done()
 		return
 	}
 	h.Cases(func(i int, r *verifx.Rng) { runCase(h, i, r) })
